@@ -181,7 +181,59 @@ pub fn candidate_names() -> Vec<String> {
     v
 }
 
+/// every Unicode scalar value as the first and as a later character of a function name, through `with_function`, against
+/// the definition of a well-formed identifier computed directly from the unicode-xid tables (the crate the repository
+/// itself uses): accepted exactly when well formed (none of these names is reserved or a duplicate)
+pub fn codepoint_sweep(rep: &mut Report, workers: usize, thorough: bool) {
+    let mut cps: Vec<char> = vec![];
+    for c in 0u32..0x110000 {
+        if thorough || c < 0x3400 || c % 16 == 0 || (0xFE00..0xFE10).contains(&c) || (0xFF00..0xFFF0).contains(&c) || (0x1D400..0x1D800).contains(&c) || (0xE0100..0xE01F0).contains(&c) {
+            if let Some(ch) = char::from_u32(c) {
+                cps.push(ch);
+            }
+        }
+    }
+    let mut sr = StreamReport::new("identifier-codepoints", "every Unicode scalar value below U+3400, every 16th above, the variation selectors, full-width forms and mathematical alphanumerics (thorough: every scalar value) as the first character (`<c>a`), as a later character (`a<c>`, `_<c>`) and after a non-ASCII start (`é<c>`) of a function name through with_function: accepted exactly when the name is a well-formed identifier by the unicode-xid tables", true);
+    let chunk = (cps.len() + workers - 1) / workers.max(1);
+    let bad: Vec<(String, bool, String)> = std::thread::scope(|sc| {
+        let hs: Vec<_> = cps
+            .chunks(chunk.max(1))
+            .map(|cs| {
+                sc.spawn(move || {
+                    let mut bad = vec![];
+                    let shared = Arc::new(Shared::default());
+                    for c in cs {
+                        for name in [format!("{}a", c), format!("a{}", c), format!("_{}", c), format!("\u{e9}{}", c)] {
+                            if KEYWORDS.contains(&name.as_str()) {
+                                continue;
+                            }
+                            let want = well_formed(&name);
+                            let got = std::panic::catch_unwind(std::panic::AssertUnwindSafe(|| ruleset().with_function(hfn(&name, &shared)).is_ok()));
+                            match got {
+                                Ok(g) if g == want => {}
+                                Ok(g) => bad.push((name, want, format!("accepted = {}", g))),
+                                Err(_) => bad.push((name, want, "PANIC".to_string())),
+                            }
+                        }
+                    }
+                    bad
+                })
+            })
+            .collect();
+        hs.into_iter().flat_map(|h| h.join().unwrap_or_default()).collect()
+    });
+    for _ in 0..cps.len() {
+        sr.evaluations += 4;
+    }
+    sr.distinct_nontrivial += cps.len() as u64 * 4;
+    for (name, want, got) in bad.iter().take(20) {
+        rep.add_finding(Finding { kind: "impl-violates-property".into(), stream: "identifier-codepoints".into(), case: format!("fnname\t{}", crate::codec::hex(name)), human: format!("with_function of a function named {:?} (U+{:04X} …)", name, name.chars().find(|c| !c.is_ascii()).map(|c| c as u32).unwrap_or(0)), impl_out: got.clone(), model_out: format!("well-formed = {}", want), predicate: "a function name is accepted exactly when it is a well-formed identifier (XID_Start or `_`, then XID_Continue) that is not reserved and not a duplicate".into(), signature: format!("C15 codepoint {}", if *want { "well-formed-refused" } else { "ill-formed-accepted" }) });
+    }
+    rep.streams.push(sr);
+}
+
 pub fn run(rep: &mut Report, driver: &str, workers: usize, thorough: bool, seed: u64) {
+    codepoint_sweep(rep, workers, thorough);
     let mut rng = Rng::new(seed);
     let rule_names = ["r1", "r2", "R1"];
     let fn_names = ["f", "g", "_h", "if"];
